@@ -57,3 +57,8 @@ Proof. vm_compute. repeat split. Qed.
 Example const_shared :
   let w := run cp1 world0 [ONewTemp; OConst (Temp 0) "K" 5] in get_const w "K" = Some 5 /\ get_const w "\K" = Some 5.
 Proof. vm_compute. split; reflexivity. Qed.
+
+(* lookup_sound's hypothesis is met by real lookups, and its conclusion names the right operation *)
+Example lookup_sound_instance :
+  In 1 (lookup (run cp1 world0 h1) (Temp 0) KC "A") /\ In (OAdd (Temp 0) KC "A" 1) h1.
+Proof. split; [vm_compute; left; reflexivity|unfold h1; simpl; auto]. Qed.
